@@ -69,6 +69,31 @@ theorem foldArr_column (g : Rat → Rat → Rat) (dt : DType) (a : Arr) (rest : 
   | nil => rfl
   | cons hb _ ih => rw [List.foldl_cons, List.foldl_cons, hb]; exact ih _
 
+/-! ### weighted accumulation as a fold over the scaled inputs -/
+
+/-- an input array times its weight -/
+def scaleArr (w : Num) (b : Arr) : Arr := b.mapCells (Cell.sc (· * w.val))
+
+/-- `weightedAcc` is the fold of additions over the scaled inputs -/
+theorem weightedAcc_eq_foldArr (w : Num) (wr : List Num) (a : Arr) (as : List Arr) (dt : DType) (hlen : wr.length = as.length) :
+    weightedAcc (w :: wr) (a :: as) dt = foldArr (Cell.bin (· + ·)) dt (scaleArr w a) (List.zipWith scaleArr wr as) := by
+  simp only [weightedAcc, foldArr]
+  have h0 : (⟨dt, a.shape, a.cells.map (Cell.sc (· * w.val))⟩ : Arr) = { scaleArr w a with dtype := dt } := by
+    simp [scaleArr, Arr.mapCells]
+  rw [h0]
+  generalize ({ scaleArr w a with dtype := dt } : Arr) = acc
+  induction as generalizing wr acc with
+  | nil => cases wr <;> rfl
+  | cons b as ih =>
+    cases wr with
+    | nil => simp at hlen
+    | cons w2 wr2 =>
+      simp only [List.zip_cons_cons, List.foldl_cons, List.zipWith_cons_cons]
+      exact ih wr2 (by simpa using hlen) _
+
+theorem scaleArr_getElem? (w : Num) (b : Arr) (i : Nat) : (scaleArr w b).cells[i]? = (b.cells[i]?).map (Cell.sc (· * w.val)) := by
+  simp [scaleArr, Arr.mapCells]
+
 /-! ### permutation invariance -/
 
 theorem fold1_perm (g : Rat → Rat → Rat) (hc : ∀ a b, g a b = g b a) (ha : ∀ a b c, g (g a b) c = g a (g b c))
